@@ -296,13 +296,10 @@ func (c *Config) setField(name string, idx int, v value, options []Option) Error
 	opts := makeOptions(options)
 	p := parsePathIdx(name, idx, opts)
 
-	err := p.SetValue(c, opts, v)
-	if err != nil {
-		return err
-	}
-
+	// the metadata first: the nodes SetValue creates on the way to the setting
+	// take theirs from the value
 	if opts.meta != nil {
 		v.setMeta(opts.meta)
 	}
-	return nil
+	return p.SetValue(c, opts, v)
 }
